@@ -106,3 +106,23 @@ package ipc
 //@ func (*listener).Close$1
 //@   ensures !called("Remove") && !called("RemoveAll") && !called("removeStaleIPC")
 //@   before call:Close#1 assert l.listener != nil
+
+// ---- round 12: listener Accept hands back what the handshaker produced; Close; Address ----
+//@ func (*listener).Accept
+//@   ghost wp = result0 at call:Wait#1
+//@   ghost we = result1 at call:Wait#1
+//@   ensures open ==> result0 == wp && result1 == we
+//@
+//@ func (*listener).Close
+//@   ensures isnil(result)
+//@
+//@ func (*listener).Close$1
+//@   ensures closed(l.closeQ) && l.closed && called("Close") && !held(l.lock)
+//@
+//@ func (*listener).Address
+//@   ghost as = result at call:String#1
+//@   ensures result == "ipc://" + as
+
+// ---- round 12: the scheme string ----
+//@ func (ipcTran).Scheme
+//@   ensures result == "ipc"
